@@ -110,7 +110,7 @@ func stabilityPhase(r *verifkit.Run) {
 			}
 		}
 	}
-	nSeq := r.N(20000, 400000)
+	nSeq := r.N(20000, 100000)
 	var calls, checks int64
 	orderSeen := map[string]struct{}{}
 	for q := 0; q < nSeq; q++ {
